@@ -4,6 +4,7 @@ def ob(fn, unwind=12, timeout=300, bounds='', **kw):
     return d
 # the leak detector's hash table has 73 buckets (constructor loop); its lists hold at most one block here
 CD = {'unwind': 7, 'unwindset': ['_ZN23MemoryLeakDetectorTableC2Ev.0:74'], 'timeout': 120}
+CD9 = dict(CD, unwind=9)
 DES = ('%d designation slots, each symbolically none / failAllocNumber(n) / failNthAllocAt(n, L) in symbolic registration order, n any 32-bit int, '
        'L one of 3 locations ("a.c":10, "a.c":20, "b.c":10; designation and allocation pass the file name through different arrays); ')
 SPEC = {
@@ -13,6 +14,10 @@ SPEC = {
         'designations are registered before the allocation history starts (or right after clearFailedAllocs); no allocation is named by two pending designations at once',
         'failure-message constructors have empty bodies and vsnprintf renders "#": message text is property C14',
         'the test is left through PlatformSpecificLongJmp, replaced by a harness hook that checks the expectation and ends the path',
+        'groups failable and cstr: leak detection compiled out (config memleak False): cpputest_malloc_location goes straight to PlatformSpecificMalloc = env_malloc, where the harness injects the failure symbolically',
+        'group countdown: leak detection compiled in (the C-level out-of-memory simulation has no effect without it); in the translated world MemoryLeakDetector::allocMemory / deallocMemory / invalidateMemory are contract stubs of the harness (one request to the allocator passed in, NULL iff that yields NULL; release = free_memory on the allocator passed in) - the real detector is properties C04/C05 and runs in the real build of the differential check',
+        'countdown semantics taken from TestHarness_c.h and the documenting tests in tests/CppUTest/TestHarness_cTest.cpp (countdown(3): 3rd malloc fails; countdown(0): next malloc fails)',
+        'the bad_alloc-throwing operator new variants of the failure injection are outside this check (build without exceptions)',
     ],
     'groups': [{
         'name': 'failable', 'wrapper': 'w15.cpp', 'harness': 'h15.c',
@@ -21,8 +26,8 @@ SPEC = {
         'obligations': [
             ob('harness_fail_history', bounds=DES % 3 + 'then 4 allocations at symbolic locations, then checkAllFailedAllocsWereDone', timeout=600),
             ob('harness_fail_clear', bounds=DES % 3 + 'then 2 allocations, clearFailedAllocs (+ checkAll), one fresh symbolic designation, 2 more allocations, checkAll', timeout=600),
-            ob('harness_fail_history', defines=['-DND=4', '-DNA=6'], tier='thorough', timeout=1200, bounds=DES % 4 + 'then 6 allocations at symbolic locations, then checkAllFailedAllocsWereDone'),
-            ob('harness_fail_clear', defines=['-DND=4', '-DNA=6'], tier='thorough', timeout=1200, bounds=DES % 4 + 'then 2 allocations, clearFailedAllocs (+ checkAll), one fresh symbolic designation, 4 more allocations, checkAll'),
+            ob('harness_fail_history', defines=['-DND=4', '-DNA=6'], tier='thorough', timeout=1800, bounds=DES % 4 + 'then 6 allocations at symbolic locations, then checkAllFailedAllocsWereDone'),
+            ob('harness_fail_clear', defines=['-DND=4', '-DNA=6'], tier='thorough', timeout=1800, bounds=DES % 4 + 'then 2 allocations, clearFailedAllocs (+ checkAll), one fresh symbolic designation, 4 more allocations, checkAll'),
         ],
     }, {
         'name': 'cstr', 'wrapper': 'w15.cpp', 'harness': 'h15s.c',
@@ -41,8 +46,8 @@ SPEC = {
                    'stubs': ['_ZN18MemoryLeakDetector11allocMemoryEP19TestMemoryAllocatormPKcmb', '_ZN18MemoryLeakDetector13deallocMemoryEP19TestMemoryAllocatorPvPKcmb', '_ZN18MemoryLeakDetector16invalidateMemoryEPc']},
         'obligations': [
             ob('harness_countdown', **CD, bounds='countdown value any 32-bit int; 4 allocations after it; set_not_out_of_memory before a symbolic one of them (or never)'),
-            ob('harness_countdown', defines=['-DNA=7'], tier='thorough', **CD, bounds='countdown value any 32-bit int; 7 allocations after it; set_not_out_of_memory before a symbolic one of them (or never)'),
-            ob('harness_oom_switch', defines=['-DNA=7'], tier='thorough', **CD, bounds='7 steps, each symbolically nothing / set_out_of_memory / set_not_out_of_memory, followed by an allocation'),
+            ob('harness_countdown', defines=['-DNA=7'], tier='thorough', **CD9, bounds='countdown value any 32-bit int; 7 allocations after it; set_not_out_of_memory before a symbolic one of them (or never)'),
+            ob('harness_oom_switch', defines=['-DNA=7'], tier='thorough', **CD9, bounds='7 steps, each symbolically nothing / set_out_of_memory / set_not_out_of_memory, followed by an allocation'),
             ob('harness_oom_switch', **CD, bounds='4 steps, each symbolically nothing / set_out_of_memory / set_not_out_of_memory, followed by an allocation'),
             ob('harness_oom_calloc', **CD, bounds='calloc(2,4) with and without simulated out-of-memory'),
         ],
